@@ -1,888 +1,19 @@
 package c17
 
 import (
-	"bytes"
-	"context"
-	"errors"
-	"fmt"
-	"math"
-	stdhttp "net/http"
-	"net/url"
-	"sort"
-	"strconv"
-	"strings"
 	"testing"
 
-	"github.com/cloudwego/dynamicgo/conv"
-	"github.com/cloudwego/dynamicgo/conv/j2t"
-	dhttp "github.com/cloudwego/dynamicgo/http"
-	"github.com/cloudwego/dynamicgo/thrift"
-	"pgregory.net/rapid"
-
-	"verifharness/jmodel"
+	"verifharness/httpcheck"
 	"verifharness/pbt"
-	"verifharness/tjson"
-	tm "verifharness/tmodel"
 )
 
 func TestMain(m *testing.M)   { pbt.Main(m, "C17") }
 func TestReplay(t *testing.T) { pbt.Replay(t) }
 
-// ---------------------------------------------------------------------------
-// schema
-
-var reqSources = []string{"query", "path", "header", "cookie", "form"}
-
-func annos(fd *tm.FieldDef) []tm.Anno {
-	var out []tm.Anno
-	for _, a := range fd.Annos {
-		if strings.HasPrefix(a.Key, "api.") && a.Key != "api.js_conv" {
-			out = append(out, a)
-		}
-	}
-	return out
-}
-
-type tyc struct {
-	t       *tm.Type
-	complex bool
-}
-
-var fieldTypes = []tyc{
-	{&tm.Type{K: tm.BOOL}, false}, {&tm.Type{K: tm.I16}, false}, {&tm.Type{K: tm.I32}, false}, {&tm.Type{K: tm.I64}, false}, {&tm.Type{K: tm.DOUBLE}, false},
-	{&tm.Type{K: tm.STRING}, false}, {&tm.Type{K: tm.STRING}, false},
-	{&tm.Type{K: tm.LIST, Elem: &tm.Type{K: tm.I32}}, true}, {&tm.Type{K: tm.LIST, Elem: &tm.Type{K: tm.STRING}}, true},
-	{&tm.Type{K: tm.MAP, Key: &tm.Type{K: tm.STRING}, Elem: &tm.Type{K: tm.I32}}, true},
-}
-
-func genReqFields(t *rapid.T, n int, prefix string, allowInner bool) []tm.FieldDef {
-	var out []tm.FieldDef
-	for i := 0; i < n; i++ {
-		fd := tm.FieldDef{ID: int16(i + 1), Name: fmt.Sprintf("%s%d", prefix, i), Req: rapid.IntRange(0, 2).Draw(t, "req")}
-		if rapid.IntRange(0, 4).Draw(t, "bigID") == 0 {
-			fd.ID = int16(100 + i*37)
-		}
-		ty := fieldTypes[rapid.IntRange(0, len(fieldTypes)-1).Draw(t, "fieldType")]
-		fd.T = ty.t
-		if allowInner && rapid.IntRange(0, 5).Draw(t, "innerField") == 0 {
-			fd.T = &tm.Type{K: tm.STRUCT, Ref: "Inner"}
-			out = append(out, fd)
-			continue
-		}
-		switch c := rapid.IntRange(0, 9).Draw(t, "annoClass"); {
-		case c < 3: // plain body field
-		case c == 3 && fd.T.K == tm.STRING:
-			fd.Annos = append(fd.Annos, tm.Anno{Key: []string{"api.raw_body", "api.raw_uri"}[rapid.IntRange(0, 1).Draw(t, "rawKind")], Val: ""})
-		default:
-			srcs := rapid.Permutation(reqSources).Draw(t, "sources")
-			k := rapid.IntRange(1, 3).Draw(t, "nSources")
-			for _, s := range srcs[:k] {
-				if s == "cookie" && ty.complex {
-					continue // cookie values cannot carry commas or brackets
-				}
-				key := fmt.Sprintf("%s_%s%d", s[:1], prefix, i)
-				if rapid.IntRange(0, 5).Draw(t, "keyIsName") == 0 {
-					key = fd.Name
-				}
-				if rapid.IntRange(0, 7).Draw(t, "sharedKey") == 0 {
-					key = "shared"
-				}
-				fd.Annos = append(fd.Annos, tm.Anno{Key: "api." + s, Val: key})
-			}
-			if rapid.IntRange(0, 2).Draw(t, "bodyLast") == 0 {
-				key := fmt.Sprintf("b_%s%d", prefix, i)
-				if rapid.IntRange(0, 3).Draw(t, "sharedBodyKey") == 0 {
-					key = "shared_body"
-				}
-				fd.Annos = append(fd.Annos, tm.Anno{Key: "api.body", Val: key}) // always listed last (the library moves it last anyway)
-			}
-		}
-		out = append(out, fd)
-	}
-	return out
-}
-
-func genSchema(t *rapid.T) *tm.Universe {
-	u := &tm.Universe{}
-	u.Structs = append(u.Structs, tm.StructDef{Name: "Req", Fields: genReqFields(t, rapid.IntRange(1, 8).Draw(t, "nReq"), "f", true)})
-	u.Structs = append(u.Structs, tm.StructDef{Name: "Inner", Fields: genReqFields(t, rapid.IntRange(1, 4).Draw(t, "nInner"), "g", false)})
-	u.Root = &tm.Type{K: tm.STRUCT, Ref: "Req"}
-	return u
-}
-
-// ---------------------------------------------------------------------------
-// request case
-
-type ROpts struct {
-	Enable    bool `json:"enable"`
-	Fallback  bool `json:"read_http_value_fallback,omitempty"`
-	Traceback bool `json:"traceback_required_or_root,omitempty"`
-	WR        bool `json:"write_require,omitempty"`
-	WD        bool `json:"write_default,omitempty"`
-	WO        bool `json:"write_optional,omitempty"`
-}
-
-type ReqCase struct {
-	U        *tm.Universe      `json:"u"`
-	O        ROpts             `json:"o"`
-	BodyKind string            `json:"body_kind"` // json | empty | form
-	Query    map[string]string `json:"query,omitempty"`
-	Params   map[string]string `json:"params,omitempty"`
-	Headers  map[string]string `json:"headers,omitempty"`
-	Cookies  map[string]string `json:"cookies,omitempty"`
-	Form     map[string]string `json:"form,omitempty"`
-	Body     string            `json:"body,omitempty"` // JSON object text
-	Twice    bool              `json:"twice,omitempty"` // convert the same request object twice
-}
-
-var safeTokens = []string{"a", "abc", "x-1", "v_2", "Zq", "0", "7", "true", "hello.world", "k"}
-
-func textFor(t *rapid.T, ty *tm.Type, allowJSON bool) string {
-	switch ty.K {
-	case tm.BOOL:
-		return []string{"true", "false", "1", "0"}[rapid.IntRange(0, 3).Draw(t, "boolText")]
-	case tm.I16:
-		return strconv.Itoa(rapid.IntRange(-32768, 32767).Draw(t, "i16Text"))
-	case tm.I32:
-		return strconv.FormatInt(tm.GenInt(t, tm.I32), 10)
-	case tm.I64:
-		return strconv.FormatInt(tm.GenInt(t, tm.I64), 10)
-	case tm.DOUBLE:
-		return []string{"0", "1.5", "-2.25", "100", "1e3", "0.001"}[rapid.IntRange(0, 5).Draw(t, "doubleText")]
-	case tm.STRING:
-		return safeTokens[rapid.IntRange(0, len(safeTokens)-1).Draw(t, "token")]
-	case tm.LIST:
-		n := rapid.IntRange(1, 3).Draw(t, "listN")
-		var parts []string
-		for i := 0; i < n; i++ {
-			parts = append(parts, textFor(t, ty.Elem, false))
-		}
-		if allowJSON && rapid.Bool().Draw(t, "listAsJSON") {
-			if ty.Elem.K == tm.STRING {
-				for i := range parts {
-					parts[i] = strconv.Quote(parts[i])
-				}
-			}
-			return "[" + strings.Join(parts, ",") + "]"
-		}
-		return strings.Join(parts, ",")
-	case tm.MAP:
-		n := rapid.IntRange(0, 2).Draw(t, "mapN")
-		var parts []string
-		for i := 0; i < n; i++ {
-			parts = append(parts, fmt.Sprintf("%q:%d", fmt.Sprintf("k%d", i), rapid.IntRange(-5, 5).Draw(t, "mapVal")))
-		}
-		return "{" + strings.Join(parts, ",") + "}"
-	}
-	return ""
-}
-
-func jsonFor(t *rapid.T, ty *tm.Type, u *tm.Universe, depth int) string {
-	switch ty.K {
-	case tm.BOOL:
-		return []string{"true", "false"}[rapid.IntRange(0, 1).Draw(t, "boolJSON")]
-	case tm.I16, tm.I32, tm.I64, tm.DOUBLE:
-		s := textFor(t, ty, false)
-		return s
-	case tm.STRING:
-		return strconv.Quote(safeTokens[rapid.IntRange(0, len(safeTokens)-1).Draw(t, "tokenJSON")] + []string{"", " b", "\"q\""}[rapid.IntRange(0, 2).Draw(t, "tokenTail")])
-	case tm.LIST:
-		n := rapid.IntRange(0, 3).Draw(t, "listNJSON")
-		var parts []string
-		for i := 0; i < n; i++ {
-			parts = append(parts, jsonFor(t, ty.Elem, u, depth+1))
-		}
-		return "[" + strings.Join(parts, ",") + "]"
-	case tm.MAP:
-		return textFor(t, ty, true)
-	case tm.STRUCT:
-		return objectFor(t, u.Struct(ty.Ref), u, depth+1, nil)
-	}
-	return "null"
-}
-
-// objectFor renders a JSON object presenting a subset of the struct's fields plus the extra members.
-func objectFor(t *rapid.T, sd *tm.StructDef, u *tm.Universe, depth int, extra map[string]string) string {
-	var parts []string
-	for i := range sd.Fields {
-		fd := &sd.Fields[i]
-		if rapid.IntRange(0, 2).Draw(t, "memberPresent") == 0 {
-			continue
-		}
-		parts = append(parts, strconv.Quote(tjson.Key(fd))+":"+jsonFor(t, fd.T, u, depth))
-	}
-	keys := make([]string, 0, len(extra))
-	for k := range extra {
-		keys = append(keys, k)
-	}
-	sort.Strings(keys)
-	for _, k := range keys {
-		parts = append(parts, strconv.Quote(k)+":"+extra[k])
-	}
-	if len(parts) > 1 {
-		parts = rapid.Permutation(parts).Draw(t, "memberOrder")
-	}
-	return "{" + strings.Join(parts, ",") + "}"
-}
-
-func genReq(t *rapid.T) ReqCase {
-	cs := ReqCase{U: genSchema(t), Query: map[string]string{}, Params: map[string]string{}, Headers: map[string]string{}, Cookies: map[string]string{}, Form: map[string]string{}}
-	cs.O.Enable = rapid.IntRange(0, 7).Draw(t, "enable") != 0
-	if cs.O.Enable {
-		cs.O.Fallback = rapid.Bool().Draw(t, "fallback")
-		cs.O.Traceback = rapid.Bool().Draw(t, "traceback")
-	}
-	cs.O.WR = rapid.IntRange(0, 2).Draw(t, "wr") == 0
-	cs.O.WD = rapid.Bool().Draw(t, "wd")
-	cs.O.WO = rapid.Bool().Draw(t, "wo")
-	cs.BodyKind = []string{"json", "json", "json", "empty", "form"}[rapid.IntRange(0, 4).Draw(t, "bodyKind")]
-	bodyExtra := map[string]string{}
-	typeOfKey := map[string]*tm.Type{} // one type per (source,key): shared keys must carry text valid for every field using them
-	for _, sd := range cs.U.Structs {
-		for i := range sd.Fields {
-			fd := &sd.Fields[i]
-			for _, a := range annos(fd) {
-				src := strings.TrimPrefix(a.Key, "api.")
-				id := src + "|" + a.Val
-				if prev, ok := typeOfKey[id]; ok && (prev.K == tm.STOP || tm.TypeIDL(prev) != tm.TypeIDL(fd.T)) {
-					// a key shared by fields of different types: leave the source empty for it
-					switch src {
-					case "query":
-						delete(cs.Query, a.Val)
-					case "path":
-						delete(cs.Params, a.Val)
-					case "header":
-						delete(cs.Headers, a.Val)
-					case "cookie":
-						delete(cs.Cookies, a.Val)
-					case "form":
-						delete(cs.Form, a.Val)
-					case "body":
-						delete(bodyExtra, a.Val)
-					}
-					typeOfKey[id] = &tm.Type{K: tm.STOP}
-					continue
-				} else if ok {
-					continue
-				}
-				typeOfKey[id] = fd.T
-				if rapid.IntRange(0, 1).Draw(t, "populate") == 0 {
-					continue
-				}
-				switch src {
-				case "query":
-					cs.Query[a.Val] = textFor(t, fd.T, true)
-				case "path":
-					cs.Params[a.Val] = textFor(t, fd.T, true)
-				case "header":
-					cs.Headers[a.Val] = textFor(t, fd.T, true)
-				case "cookie":
-					cs.Cookies[a.Val] = textFor(t, fd.T, false)
-				case "form":
-					cs.Form[a.Val] = textFor(t, fd.T, true)
-				case "body":
-					bodyExtra[a.Val] = jsonFor(t, fd.T, cs.U, 1)
-				}
-			}
-		}
-	}
-	// a few values under the fields' own keys (traceback looks fields up by key in every source)
-	for i := range cs.U.Structs[0].Fields {
-		fd := &cs.U.Structs[0].Fields[i]
-		if fd.T.K == tm.STRUCT || typeOfKey["query|"+tjson.Key(fd)] != nil || typeOfKey["header|"+tjson.Key(fd)] != nil {
-			continue
-		}
-		switch rapid.IntRange(0, 9).Draw(t, "ownKey") {
-		case 0:
-			cs.Query[tjson.Key(fd)] = textFor(t, fd.T, true)
-		case 1:
-			cs.Headers[tjson.Key(fd)] = textFor(t, fd.T, true)
-		}
-	}
-	switch cs.BodyKind {
-	case "json":
-		cs.Body = objectFor(t, cs.U.Struct("Req"), cs.U, 0, bodyExtra)
-		cs.Form = map[string]string{}
-	case "form":
-		// form members double as body members
-	default:
-		cs.Form = map[string]string{}
-	}
-	cs.Twice = rapid.IntRange(0, 3).Draw(t, "twice") == 0
-	return cs
-}
-
-// ---------------------------------------------------------------------------
-// model
-
-var errMissing = errors.New("missing required field")
-
-type model struct {
-	cs   ReqCase
-	body *jmodel.Node // parsed JSON body (nil when there is none)
-}
-
-func (m *model) bodyMember(key string) string {
-	if m.cs.BodyKind == "form" {
-		return m.cs.Form[key]
-	}
-	if m.body == nil || m.body.K != jmodel.Obj {
-		return ""
-	}
-	n := m.body.Get(key)
-	if n == nil {
-		return ""
-	}
-	if n.K == jmodel.Str {
-		return n.Str
-	}
-	return rawOf(n)
-}
-
-// rawOf re-renders a parsed node compactly (the generator writes compact JSON, so this is the member's raw text).
-func rawOf(n *jmodel.Node) string {
-	switch n.K {
-	case jmodel.Null:
-		return "null"
-	case jmodel.Bool:
-		return strconv.FormatBool(n.B)
-	case jmodel.Num:
-		return n.Num
-	case jmodel.Str:
-		return strconv.Quote(n.Str)
-	case jmodel.Arr:
-		var p []string
-		for _, e := range n.Elems {
-			p = append(p, rawOf(e))
-		}
-		return "[" + strings.Join(p, ",") + "]"
-	}
-	var p []string
-	for i, k := range n.Keys {
-		p = append(p, strconv.Quote(k)+":"+rawOf(n.Vals[i]))
-	}
-	return "{" + strings.Join(p, ",") + "}"
-}
-
-func (m *model) source(a tm.Anno) string {
-	switch a.Key {
-	case "api.query":
-		return m.cs.Query[a.Val]
-	case "api.path":
-		return m.cs.Params[a.Val]
-	case "api.header":
-		return m.cs.Headers[a.Val]
-	case "api.cookie":
-		return m.cs.Cookies[a.Val]
-	case "api.form":
-		return m.cs.Form[a.Val]
-	case "api.body":
-		return m.bodyMember(a.Val)
-	case "api.raw_body":
-		if m.cs.BodyKind == "json" {
-			return m.cs.Body
-		}
-		return ""
-	case "api.raw_uri":
-		return uriOf(m.cs)
-	}
-	return ""
-}
-
-// firstSource: the first listed source that has a value. api.raw_body / api.raw_uri always "have" one (possibly empty).
-func (m *model) firstSource(fd *tm.FieldDef) (string, bool) {
-	for _, a := range annos(fd) {
-		v := m.source(a)
-		if v != "" || a.Key == "api.raw_body" || a.Key == "api.raw_uri" {
-			return v, true
-		}
-	}
-	return "", false
-}
-
-// tryGet: path parameter, query, header, cookie, body member - in that order.
-func (m *model) tryGet(key string) string {
-	for _, v := range []string{m.cs.Params[key], m.cs.Query[key], m.cs.Headers[key], m.cs.Cookies[key], m.bodyMember(key)} {
-		if v != "" {
-			return v
-		}
-	}
-	return ""
-}
-
-func isJSONText(v string) bool {
-	v = strings.TrimLeft(v, " \t\r\n")
-	if len(v) < 2 {
-		return false
-	}
-	s, e := v[0], v[len(v)-1]
-	return (s == '{' && e == '}') || (s == '[' && e == ']') || (s == '"' && e == '"')
-}
-
-func (m *model) fromText(ty *tm.Type, v string) (*tm.Value, error) {
-	switch ty.K {
-	case tm.BOOL:
-		b, err := strconv.ParseBool(v)
-		return &tm.Value{K: tm.BOOL, B: b}, err
-	case tm.I16, tm.I32, tm.I64:
-		i, err := strconv.ParseInt(v, 10, 64)
-		return &tm.Value{K: ty.K, I: i}, err
-	case tm.DOUBLE:
-		f, err := strconv.ParseFloat(v, 64)
-		return &tm.Value{K: tm.DOUBLE, F: math.Float64bits(f)}, err
-	case tm.STRING:
-		return &tm.Value{K: tm.STRING, S: []byte(v)}, nil
-	case tm.LIST:
-		if isJSONText(v) {
-			n, err := jmodel.ParseRaw([]byte(v))
-			if err != nil {
-				return nil, err
-			}
-			return m.fromJSON(ty, n, false)
-		}
-		out := &tm.Value{K: tm.LIST, ET: ty.Elem.K}
-		for _, p := range strings.Split(v, ",") {
-			e, err := m.fromText(ty.Elem, p)
-			if err != nil {
-				return nil, err
-			}
-			out.Elems = append(out.Elems, e)
-		}
-		return out, nil
-	case tm.MAP:
-		n, err := jmodel.ParseRaw([]byte(v))
-		if err != nil {
-			return nil, err
-		}
-		return m.fromJSON(ty, n, false)
-	}
-	return nil, fmt.Errorf("no text form for %v", ty.K)
-}
-
-func (m *model) fromJSON(ty *tm.Type, n *jmodel.Node, root bool) (*tm.Value, error) {
-	switch ty.K {
-	case tm.BOOL:
-		if n.K != jmodel.Bool {
-			return nil, fmt.Errorf("kind")
-		}
-		return &tm.Value{K: tm.BOOL, B: n.B}, nil
-	case tm.I16, tm.I32, tm.I64:
-		i, ok := n.Int(false)
-		if !ok {
-			f, fok := n.Float()
-			if !fok {
-				return nil, fmt.Errorf("kind")
-			}
-			return &tm.Value{K: ty.K, I: int64(f)}, nil
-		}
-		return &tm.Value{K: ty.K, I: i.Int64()}, nil
-	case tm.DOUBLE:
-		f, ok := n.Float()
-		if !ok {
-			return nil, fmt.Errorf("kind")
-		}
-		return &tm.Value{K: tm.DOUBLE, F: math.Float64bits(f)}, nil
-	case tm.STRING:
-		if n.K != jmodel.Str {
-			return nil, fmt.Errorf("kind")
-		}
-		return &tm.Value{K: tm.STRING, S: []byte(n.Str)}, nil
-	case tm.LIST:
-		if n.K != jmodel.Arr {
-			return nil, fmt.Errorf("kind")
-		}
-		out := &tm.Value{K: tm.LIST, ET: ty.Elem.K}
-		for _, e := range n.Elems {
-			c, err := m.fromJSON(ty.Elem, e, false)
-			if err != nil {
-				return nil, err
-			}
-			out.Elems = append(out.Elems, c)
-		}
-		return out, nil
-	case tm.MAP:
-		if n.K != jmodel.Obj {
-			return nil, fmt.Errorf("kind")
-		}
-		out := &tm.Value{K: tm.MAP, KT: ty.Key.K, ET: ty.Elem.K}
-		for i, k := range n.Keys {
-			c, err := m.fromJSON(ty.Elem, n.Vals[i], false)
-			if err != nil {
-				return nil, err
-			}
-			out.Keys = append(out.Keys, &tm.Value{K: tm.STRING, S: []byte(k)})
-			out.Elems = append(out.Elems, c)
-		}
-		return out, nil
-	case tm.STRUCT:
-		if n.K != jmodel.Obj {
-			return nil, fmt.Errorf("kind")
-		}
-		return m.strct(m.cs.U.Struct(ty.Ref), n, root)
-	}
-	return nil, fmt.Errorf("kind")
-}
-
-// emptyRule: nothing was found for the field anywhere.
-func (m *model) emptyRule(fd *tm.FieldDef) (*tm.Value, error) {
-	switch fd.Req {
-	case tm.ReqRequired:
-		if !m.cs.O.WR {
-			return nil, errMissing
-		}
-	case tm.ReqOptional:
-		if !m.cs.O.WO {
-			return nil, nil
-		}
-	default:
-		if !m.cs.O.WD {
-			return nil, nil
-		}
-	}
-	return tm.ZeroValue(fd.T), nil
-}
-
-// strct: one struct converted from a JSON object that is present.
-func (m *model) strct(sd *tm.StructDef, obj *jmodel.Node, root bool) (*tm.Value, error) {
-	out := &tm.Value{K: tm.STRUCT}
-	o := m.cs.O
-	handled := map[int16]bool{}
-	pending := map[int16]bool{}
-	set := map[int16]bool{}
-	add := func(fd *tm.FieldDef, v *tm.Value) {
-		out.Fields = append(out.Fields, tm.FieldVal{ID: fd.ID, V: v})
-		set[fd.ID] = true
-	}
-	if o.Enable {
-		for i := range sd.Fields {
-			fd := &sd.Fields[i]
-			if len(annos(fd)) == 0 {
-				continue
-			}
-			v, ok := m.firstSource(fd)
-			if !ok || v == "" {
-				if !ok && o.Fallback {
-					pending[fd.ID] = true
-					continue
-				}
-				val, err := m.emptyRule(fd)
-				if err != nil {
-					return nil, err
-				}
-				if val != nil {
-					add(fd, val)
-				}
-				handled[fd.ID] = true
-				continue
-			}
-			val, err := m.fromText(fd.T, v)
-			if err != nil {
-				return nil, fmt.Errorf("model cannot convert %q for %s: %w", v, fd.Name, err)
-			}
-			add(fd, val)
-			handled[fd.ID] = true
-		}
-	}
-	for i, k := range obj.Keys {
-		var fd *tm.FieldDef
-		for j := range sd.Fields {
-			if tjson.Key(&sd.Fields[j]) == k {
-				fd = &sd.Fields[j]
-			}
-		}
-		if fd == nil || set[fd.ID] && !handled[fd.ID] {
-			continue
-		}
-		if o.Enable && len(annos(fd)) > 0 && !pending[fd.ID] {
-			continue // http-mapped: the body member is ignored
-		}
-		if obj.Vals[i].K == jmodel.Null {
-			continue
-		}
-		val, err := m.fromJSON(fd.T, obj.Vals[i], false)
-		if err != nil {
-			return nil, err
-		}
-		add(fd, val)
-		delete(pending, fd.ID)
-	}
-	ids := make([]int, 0, len(sd.Fields))
-	for i := range sd.Fields {
-		ids = append(ids, int(sd.Fields[i].ID))
-	}
-	sort.Ints(ids)
-	for _, id := range ids {
-		fd := sd.Field(int16(id))
-		if set[fd.ID] || handled[fd.ID] {
-			continue
-		}
-		if !pending[fd.ID] && fd.Req == tm.ReqOptional {
-			continue // no bit
-		}
-		if o.Enable && o.Fallback && (fd.Req == tm.ReqRequired || root) {
-			v := ""
-			if o.Traceback {
-				v = m.tryGet(tjson.Key(fd))
-			}
-			if v != "" {
-				val, err := m.fromText(fd.T, v)
-				if err != nil {
-					return nil, fmt.Errorf("model cannot convert %q for %s: %w", v, fd.Name, err)
-				}
-				add(fd, val)
-				continue
-			}
-			val, err := m.emptyRule(fd)
-			if err != nil {
-				return nil, err
-			}
-			if val != nil {
-				add(fd, val)
-			}
-			continue
-		}
-		val, err := m.emptyRule(fd)
-		if err != nil {
-			return nil, err
-		}
-		if val != nil {
-			add(fd, val)
-		}
-	}
-	return out, nil
-}
-
-// noBody: the request has no JSON body.
-func (m *model) noBody(sd *tm.StructDef) (*tm.Value, error) {
-	out := &tm.Value{K: tm.STRUCT}
-	o := m.cs.O
-	if !o.Enable {
-		return out, nil
-	}
-	done := map[int16]bool{}
-	for i := range sd.Fields {
-		fd := &sd.Fields[i]
-		if len(annos(fd)) == 0 {
-			continue
-		}
-		v, ok := m.firstSource(fd)
-		if !ok || v == "" {
-			if fd.Req == tm.ReqRequired && !o.WR {
-				return nil, errMissing
-			}
-			if (fd.Req == tm.ReqDefault && !o.WD) || (fd.Req == tm.ReqOptional && !o.WO) {
-				if ok {
-					done[fd.ID] = true // an empty raw body counts as handled
-				}
-				continue
-			}
-			done[fd.ID] = true
-			out.Fields = append(out.Fields, tm.FieldVal{ID: fd.ID, V: tm.ZeroValue(fd.T)})
-			continue
-		}
-		val, err := m.fromText(fd.T, v)
-		if err != nil {
-			return nil, fmt.Errorf("model cannot convert %q for %s: %w", v, fd.Name, err)
-		}
-		done[fd.ID] = true
-		out.Fields = append(out.Fields, tm.FieldVal{ID: fd.ID, V: val})
-	}
-	ids := make([]int, 0, len(sd.Fields))
-	for i := range sd.Fields {
-		ids = append(ids, int(sd.Fields[i].ID))
-	}
-	sort.Ints(ids)
-	for _, id := range ids {
-		fd := sd.Field(int16(id))
-		if done[fd.ID] || fd.Req == tm.ReqOptional {
-			continue
-		}
-		if !o.Fallback {
-			if fd.Req == tm.ReqRequired {
-				return nil, errMissing
-			}
-			continue
-		}
-		if v := m.tryGet(tjson.Key(fd)); v != "" && fd.T.K != tm.STRUCT {
-			val, err := m.fromText(fd.T, v)
-			if err != nil {
-				return nil, fmt.Errorf("model cannot convert %q for %s: %w", v, fd.Name, err)
-			}
-			out.Fields = append(out.Fields, tm.FieldVal{ID: fd.ID, V: val})
-			continue
-		}
-		val, err := m.emptyRule(fd)
-		if err != nil {
-			return nil, err
-		}
-		if val != nil {
-			out.Fields = append(out.Fields, tm.FieldVal{ID: fd.ID, V: val})
-		}
-	}
-	return out, nil
-}
-
-func uriOf(cs ReqCase) string {
-	q := url.Values{}
-	for k, v := range cs.Query {
-		q.Set(k, v)
-	}
-	u := "http://example.com/svc/call"
-	if len(q) > 0 {
-		u += "?" + q.Encode()
-	}
-	return u
-}
-
-func buildRequest(cs ReqCase) (*dhttp.HTTPRequest, error) {
-	var body []byte
-	ct := ""
-	switch cs.BodyKind {
-	case "json":
-		body, ct = []byte(cs.Body), "application/json"
-	case "form":
-		f := url.Values{}
-		for k, v := range cs.Form {
-			f.Set(k, v)
-		}
-		body, ct = []byte(f.Encode()), "application/x-www-form-urlencoded"
-	}
-	std, err := stdhttp.NewRequest("POST", uriOf(cs), bytes.NewReader(body))
-	if err != nil {
-		return nil, err
-	}
-	if ct != "" {
-		std.Header.Set("Content-Type", ct)
-	}
-	for k, v := range cs.Headers {
-		std.Header.Set(k, v)
-	}
-	ck := make([]string, 0, len(cs.Cookies))
-	for k := range cs.Cookies {
-		ck = append(ck, k)
-	}
-	sort.Strings(ck)
-	for _, k := range ck {
-		std.AddCookie(&stdhttp.Cookie{Name: k, Value: cs.Cookies[k]})
-	}
-	var params []dhttp.Param
-	pk := make([]string, 0, len(cs.Params))
-	for k := range cs.Params {
-		pk = append(pk, k)
-	}
-	sort.Strings(pk)
-	for _, k := range pk {
-		params = append(params, dhttp.Param{Key: k, Value: cs.Params[k]})
-	}
-	return dhttp.NewHTTPRequestFromStdReq(std, params...)
-}
-
-func checkReq(c *pbt.Ctx, cs ReqCase) {
-	comp, err := tm.CompileUniverse(cs.U, thrift.Options{})
-	if err != nil {
-		c.Failf("harness-idl", "IDL rejected: %v\n%s", err, cs.U.Render())
-	}
-	m := &model{cs: cs}
-	if cs.BodyKind == "json" {
-		n, perr := jmodel.ParseRaw([]byte(cs.Body))
-		if perr != nil {
-			c.Failf("harness-json", "generated body is not valid JSON: %v\n%s", perr, cs.Body)
-			return
-		}
-		m.body = n
-	}
-	var want *tm.Value
-	var werr error
-	if cs.BodyKind == "json" {
-		want, werr = m.fromJSON(cs.U.Root, m.body, true)
-	} else {
-		want, werr = m.noBody(cs.U.Struct("Req"))
-	}
-	if werr != nil && werr != errMissing {
-		c.Failf("harness-model", "%v", werr)
-		return
-	}
-	req, err := buildRequest(cs)
-	if err != nil {
-		c.Failf("harness-request", "cannot build the request: %v", err)
-		return
-	}
-	co := conv.Options{EnableHttpMapping: cs.O.Enable, ReadHttpValueFallback: cs.O.Fallback, TracebackRequredOrRootFields: cs.O.Traceback,
-		WriteRequireField: cs.O.WR, WriteDefaultField: cs.O.WD, WriteOptionalField: cs.O.WO}
-	cv := j2t.NewBinaryConv(co)
-	ctx := context.WithValue(context.Background(), conv.CtxKeyHTTPRequest, req)
-	var body []byte
-	if cs.BodyKind == "json" {
-		body = []byte(cs.Body)
-	}
-	rounds := 1
-	if cs.Twice {
-		rounds = 2
-	}
-	for r := 0; r < rounds; r++ {
-		var out []byte
-		c.Step("j2t with http mapping, round %d, opts=%+v", r, cs.O)
-		if !c.Protect("", func() { out, err = cv.Do(ctx, comp.Root, body) }) {
-			return
-		}
-		if werr == errMissing {
-			if err == nil {
-				c.Failf("missing-error", "a required field has no value in any source, conversion succeeded: %x\n%s", head(out), describe(cs))
-				return
-			}
-			c.Class("rejected:missing-required")
-			continue
-		}
-		if err != nil {
-			c.Failf("unexpected-error", "conversion fails: %v\n%s", err, describe(cs))
-			return
-		}
-		got, derr := tm.DecodeStrict(tm.STRUCT, out)
-		if derr != nil {
-			c.Failf("bad-output", "output is not well-formed Thrift: %v\n%x\n%s", derr, head(out), describe(cs))
-			return
-		}
-		if d := tm.DiffFieldsByID(want, got); d != "" {
-			c.Failf("wrong-fields", "round %d: output differs from the decision table (want vs got): %s\n%s", r, d, describe(cs))
-			return
-		}
-	}
-	c.Class("body:" + cs.BodyKind)
-	c.Class(fmt.Sprintf("opts:enable=%v,fallback=%v,traceback=%v", cs.O.Enable, cs.O.Fallback, cs.O.Traceback))
-	if cs.O.Enable {
-		c.NonTrivial()
-	}
-}
-
-func head(b []byte) []byte {
-	if len(b) > 200 {
-		return b[:200]
-	}
-	return b
-}
-
-func describe(cs ReqCase) string {
-	var b strings.Builder
-	for _, sd := range cs.U.Structs {
-		fmt.Fprintf(&b, "struct %s:", sd.Name)
-		for _, fd := range sd.Fields {
-			fmt.Fprintf(&b, " %d:%s(%s,req=%d)%v", fd.ID, fd.Name, tm.TypeIDL(fd.T), fd.Req, fd.Annos)
-		}
-		b.WriteString("\n")
-	}
-	fmt.Fprintf(&b, "opts=%+v body(%s)=%s\nquery=%v params=%v headers=%v cookies=%v form=%v", cs.O, cs.BodyKind, cs.Body, cs.Query, cs.Params, cs.Headers, cs.Cookies, cs.Form)
-	s := b.String()
-	if len(s) > 2500 {
-		s = s[:2500] + "..."
-	}
-	return s
-}
-
-var ReqProp = pbt.Register(pbt.Prop[ReqCase]{
-	Name: "TestRequestMapping",
-	Rule: "generated request structs (scalar, list and map fields with any ordered list of api.query/path/header/cookie/form [+ api.body last], api.raw_body / api.raw_uri string fields, plain body fields, a nested struct with its own annotated fields, keys shared between fields, any requiredness) x requests built with the library's own HTTPRequest (any subset of sources populated; JSON body / form body / no body; body members in any order; the same request converted twice) x options (EnableHttpMapping, ReadHttpValueFallback, TracebackRequredOrRootFields, Write*Field); oracle = decision-table model: first listed source that has a value, converted by the field type; plain fields from the body; otherwise body fallback / traceback by key / zero filling / missing-field error as the options say; output decoded by the reference codec and compared field by field; non-trivial = mapping enabled",
-	Gen:   genReq,
-	Check: checkReq,
-})
+var ReqProp = pbt.Register(httpcheck.ReqProp("TestRequestMapping"))
 
 func TestRequestMapping(t *testing.T) { pbt.Run(t, ReqProp) }
+
+var RespProp = pbt.Register(httpcheck.RespProp("TestResponseMapping"))
+
+func TestResponseMapping(t *testing.T) { pbt.Run(t, RespProp) }
